@@ -448,8 +448,24 @@ func TestC15_P_ShardedDirs(t *testing.T) {
 			root = nd.Cid()
 		}
 		depth := 1
+		// keys that are never yielded but look like what is stored: an entry's stored link name (slot label + name) and the
+		// tail of its label + name
+		labelled := []string{}
 		if tr, err := st.ShardTree(root); err == nil {
 			depth = tr.Depth()
+			var walk func(sn *ShardNode)
+			walk = func(sn *ShardNode) {
+				for _, l := range sn.Links {
+					if l.Child != nil {
+						walk(l.Child)
+					} else if len(labelled) < 600 {
+						for k := 0; k < sn.Pad; k++ {
+							labelled = append(labelled, l.Name[k:])
+						}
+					}
+				}
+			}
+			walk(tr)
 		}
 		ls := st.LinkSystem()
 		st.RequireSession = len(names)%2 == 1 // (the store serves only loads that carry the request's context)
@@ -490,7 +506,7 @@ func TestC15_P_ShardedDirs(t *testing.T) {
 				if cerr != nil {
 					return
 				}
-				_, cerr = checkMapContract(rn, []string{"nope", "Links", "Data", "Hash", "", "00", "0"})
+				_, cerr = checkMapContract(rn, append([]string{"nope", "Links", "Data", "Hash", "", "00", "0"}, labelled...))
 			})
 			if cerr != nil {
 				t.Fatalf("C15: sharded directory (%s, fanout %d, %d names, depth %d) via %s: %v", src, fanout, len(names), depth, reifier, cerr)
